@@ -2,6 +2,7 @@
 # usage: tools/seedrun.sh /tmp/mut/mX   -> confirms every out/<ID>-<n> and appends a summary line per seed
 for d in "$1"/out/C*-*/; do
   n=$(basename "$d")
+  if [ -n "$2" ]; then n=$(echo "$n" | sed "s/-/-$2/"); fi
   [ -f "$d/meta.json" ] || continue
   [ -f /verif/seeded/$n/meta.json ] && grep -q '"caught": true' /verif/seeded/$n/meta.json && continue
   out=$(python3 /verif/tools/seedcheck.py "$d" --keep-as "$n" --thorough --seeds "1 2" 2>&1)
